@@ -51,7 +51,7 @@ impl RandomProp for RoundTrip {
         })
     }
     fn cases(env: &Env) -> u64 {
-        env.n(13 * 10_000, 13 * 60_000)
+        env.n(13 * 10_000, 13 * 40_000)
     }
 }
 
